@@ -271,8 +271,18 @@ func goDecIns(doc []byte) (res string) {
 		}
 		prevIns = append([]byte{}, doc...)
 	}
+	// a value decoded earlier belongs to its holder: decoding another document elsewhere must not
+	// change it
+	if heldIns != nil && canonIns(heldIns) != heldInsCanon {
+		return fmt.Sprintf("ok-but-a-value-decoded-earlier-changed: was=%s now=%s", heldInsCanon, canonIns(heldIns))
+	}
+	heldIns, heldInsCanon = &p, canonIns(&p)
 	return "ok " + canonIns(&p)
 }
+
+var heldIns *prover.InsertionParameters
+var heldDel *prover.DeletionParameters
+var heldInsCanon, heldDelCanon string
 
 var prevIns, prevDel []byte
 
@@ -306,6 +316,10 @@ func goDecDel(doc []byte) (res string) {
 		}
 		prevDel = append([]byte{}, doc...)
 	}
+	if heldDel != nil && canonDel(heldDel) != heldDelCanon {
+		return fmt.Sprintf("ok-but-a-value-decoded-earlier-changed: was=%s now=%s", heldDelCanon, canonDel(heldDel))
+	}
+	heldDel, heldDelCanon = &p, canonDel(&p)
 	return "ok " + canonDel(&p)
 }
 
